@@ -2,6 +2,7 @@
 from .. import rules_rollback as R
 from .. import rules_cmp
 from .. import rules_index
+from .. import rules_msg
 
 
 def run(ck, progs):
@@ -16,7 +17,9 @@ def run(ck, progs):
                      "bound >= the timestamp of the newest history entry (lowered only when the history is empty)")
     ck.rule("C01.3", "history discipline: six writers; the processed event is appended untagged after its handler; sent messages are recorded tagged")
     ck.rule("C01.4", "silent re-execution cannot emit (C05.1) and straggler detection / matching use the one canonical order (C16.3)")
+    ck.rule("C01.6", "event construction: msg_allocator_pack stores receiver / timestamp / type in the fields of their role and copies exactly the declared payload; ScheduleNewEvent forwards its five parameters position by position")
     for cfg, P in progs.items():
+        rules_msg.check_pack(ck, P, "C01.6")
         R.check_pipeline(ck, P, "C01.1")
         rules_index.check_rollback_index(ck, P, "C01.2")
         rules_index.check_bound_prefilter(ck, P, "C01.5")
